@@ -41,6 +41,7 @@ MUT_KINDS = [
     None, None, None,
     "m2_bit_pk", "m2_bit_salt", "m2_byte_pk", "m2_drop_pk", "m2_drop_salt", "m2_setlen_pk", "m2_dup_salt",
     "m4_bit_proof", "m4_byte_proof", "m4_drop_proof", "m4_forge", "m4_setlen_proof", "wrong_code_accessory",
+    "m6_state_altered", "m6_error_with_data", "m4_state_altered", "m4_error_with_data", "m2_error_with_data",
     "m6_bit_enc", "m6_byte_enc", "m6_drop_enc", "m6_wrong_key", "m6_wrong_nonce", "m6_wrong_ltsk", "m6_sign_other_id", "m6_sign_other_pk", "m6_wrong_x",
     "m6_inner_bit_sig", "m6_inner_bit_id", "m6_inner_bit_pk", "m6_inner_drop_sig", "m6_inner_drop_id", "m6_inner_drop_pk",
     "trunc_m2", "trunc_m4", "trunc_m6", "reorder_m2", "reorder_m6",
@@ -69,6 +70,13 @@ def build_mut(kind: str | None, r: random.Random, ch: Chooser) -> tuple[dict | N
         return None, None
     bit = r.randrange(1 << 14)
     f = {"pk": hap.T_PUBKEY, "salt": hap.T_SALT, "proof": hap.T_PROOF, "enc": hap.T_ENC, "sig": hap.T_SIG, "id": hap.T_ID}
+    if kind.endswith("_state_altered"):
+        # every other field intact and authentic; only the outer step number differs
+        return {"kind": {"m4": "outer4", "m6": "outer6"}[kind[:2]], "outer": {"kind": "byte", "field": hap.T_STATE, "off": 0, "x": r.choice([2, 0x80, 4, 1, 0xFF])}}, None
+    if kind.endswith("_error_with_data"):
+        # an error code next to otherwise complete, authentic fields
+        return {"kind": {"m2": "error2", "m4": "error4", "m6": "error6"}[kind[:2]], "code": r.choice([1, 2, 3, 4, 5, 6, 7, 9]), "state": "expected", "keep_fields": True,
+                "error_first": r.random() < 0.5}, None
     if kind.startswith("m2_") or kind.startswith("m4_") or kind.startswith("m6_bit") or kind.startswith("m6_byte") or kind == "m6_drop_enc":
         stage = {"m2": "outer2", "m4": "outer4", "m6": "outer6"}[kind[:2]]
         _, op, field = kind.split("_", 2) if kind.count("_") == 2 else (None, kind.split("_")[1], None)
@@ -130,8 +138,10 @@ def verify_delivered(setup: hap.SetupResponder, delivered: list[bytes]) -> tuple
         return False, "accessory never computed K", info
     if d4.get(hap.T_PROOF) is None or int.from_bytes(d4[hap.T_PROOF], "big") != int.from_bytes(srp.M2, "big"):
         return False, "delivered M4 proof is not the accessory proof for this exchange", info
-    if hap.T_ERROR in d4 or hap.T_ERROR in d6:
+    if hap.T_ERROR in d4 or hap.T_ERROR in d6 or hap.T_ERROR in tlv8.to_dict(delivered_items(delivered[0]) or []):
         return False, "error TLV present", info
+    if d4.get(hap.T_STATE, b"\x04") != b"\x04" or d6.get(hap.T_STATE, b"\x06") != b"\x06":
+        return False, "step number of M4/M6 altered", info
     kenc = RC.hkdf(srp.K, b"Pair-Setup-Encrypt-Salt", b"Pair-Setup-Encrypt-Info")
     pt = RC.unseal(kenc, RC.nonce_label(b"PS-Msg06"), d6.get(hap.T_ENC, b""))
     if pt is None:
